@@ -189,6 +189,12 @@ func cauHash(label string) []byte {
 	if v, ok := cauHashes.Load(label); ok {
 		return v.([]byte)
 	}
+	if strings.HasPrefix(label, "!") {
+		// an unusable stored hash: the secret kept in plain text instead of a bcrypt hash
+		h := []byte(label[1:])
+		cauHashes.Store(label, h)
+		return h
+	}
 	secret := label
 	if label == "~" {
 		secret = ""
@@ -1202,6 +1208,28 @@ func ClientAuthCases(e *Emitter, r *Rand, tier string) {
 				c := cauBase(ep, clients, T.id)
 				cauApplyTransport(&c, tr, T.id, "", cauPlainT)
 				add(c)
+			}
+		}
+	}
+
+	// 5. unusable stored hashes: no hash at all, or the secret stored in plain text (bcrypt answers with an
+	//    error other than "mismatch"): nothing authenticates such a confidential client by secret
+	for _, cur := range []string{"", "!Tplain"} {
+		for _, reg := range []struct {
+			oidc   bool
+			method string
+			rot    []string
+		}{{false, "", nil}, {true, "client_secret_basic", nil}, {true, "client_secret_post", nil}, {true, "private_key_jwt", nil}, {false, "", []string{"Trot0"}}} {
+			T := cauClient{id: "tgt", oidc: reg.oidc, method: reg.method, cur: cur, rotated: reg.rot}
+			clients := []cauClient{T, cauOther, cauPublic}
+			for _, ep := range []cauEndpoint{{"auth", "client_credentials", false}, {"token", "client_credentials", false}, {"revoke", "", false}, {"par", "", false}, {"device", "", false}} {
+				for _, tr := range []string{"basic", "body", "body-id-only", "both-same"} {
+					for _, sec := range []string{"", "Tplain", "wrong", "Trot0"} {
+						c := cauBase(ep, clients, T.id)
+						cauApplyTransport(&c, tr, T.id, sec, cauPlainT)
+						add(c)
+					}
+				}
 			}
 		}
 	}
